@@ -679,6 +679,9 @@ func (i *interpreter) noteWrite(addr *value) {
 }
 
 func (i *interpreter) writeCell(addr *value, v value) {
+	if i.trace != nil && i.trace.recAcc {
+		i.trace.access(addr, true, i.siteName())
+	}
 	i.noteWrite(addr)
 	*addr = v
 }
@@ -961,4 +964,42 @@ func (i *interpreter) quoteByte(b value, quote byte) []value {
 		return []value{b}
 	}
 	panic(unsupported{"quoting a symbolic control or non-ASCII byte (length depends on the value)"})
+}
+
+
+// siteName: the function the interpreter is executing (for attributing memory accesses).
+func (i *interpreter) siteName() string {
+	for k := len(i.curFn) - 1; k >= 0; k-- {
+		fn := i.curFn[k]
+		if fn.Pkg != nil && fn.Pkg.Pkg.Path() == "github.com/rhysd/actionlint" {
+			return fn.Name()
+		}
+	}
+	if len(i.curFn) > 0 {
+		return i.curFn[len(i.curFn)-1].Name()
+	}
+	return "?"
+}
+
+// noteRead records the cells a load of type T from addr reads.
+func (i *interpreter) noteRead(T types.Type, addr *value) {
+	if addr == nil {
+		return
+	}
+	switch T := T.Underlying().(type) {
+	case *types.Struct:
+		if v, ok := (*addr).(structure); ok {
+			for k := range v {
+				i.noteRead(T.Field(k).Type(), &v[k])
+			}
+		}
+	case *types.Array:
+		if v, ok := (*addr).(array); ok {
+			for k := range v {
+				i.noteRead(T.Elem(), &v[k])
+			}
+		}
+	default:
+		i.trace.access(addr, false, i.siteName())
+	}
 }
